@@ -293,6 +293,8 @@ func (w *worker) safeRun(line string) (out string) {
 		return w.runHTTP(f)
 	case "ws":
 		return w.runWS(f)
+	case "tcp":
+		return w.runTCP(f)
 	default:
 		return w.runCore(f)
 	}
